@@ -105,7 +105,7 @@ func Load(cfg LoadConfig, overlay map[string][]byte) (*Loaded, error) {
 		Whitelist:      map[string]bool{},
 		WhitelistPkgs:  map[string]bool{"path": true, "strings": true, "internal/stringslite": true, "unicode/utf8": true},
 		MaxSteps:       4_000_000,
-		MaxForks:       600,
+		MaxForks:       4000,
 		MaxBlockVisits: 5000,
 		SolverKind:     SolverZ3New,
 		TimeoutMs:      10000,
